@@ -82,7 +82,7 @@ def check_json(ws, extra_args=(), timeout=3600):
     """cargo check --message-format=json --keep-going; returns (per-target errors {target_name: [rendered msgs]}, compiled targets set, raw rc)."""
     rc, out, err = cargo(ws, ["check", "--keep-going", "--message-format=json", *extra_args], timeout=timeout)
     errors, seen = {}, set()
-    for line in out.splitlines():
+    for line in out.split("\n"):
         if not line.startswith("{"):
             continue
         try:
@@ -193,6 +193,9 @@ class ProgSet:
         self.pid, self.prefix, self.n, self.support, self.prelude = pid, prefix, nshards, support_rs, prelude
         self.progs = []  # (id, lines, entry)
         self.prog_type = prog_type
+        # a shard that has not finished after this many seconds is taken apart (one process per program); the programs
+        # themselves run for milliseconds; VERIF_TIER is exported by the driver
+        self.shard_timeout = 1800 if os.environ.get("VERIF_TIER_RUNNING") == "thorough" else 240
 
     def add(self, pid, lines, entry):
         self.progs.append((pid, lines, entry))
@@ -261,28 +264,37 @@ class ProgSet:
         """runs every shard; returns (list of parsed JSON lines, machinery errors)"""
         import concurrent.futures
         res, mach = [], []
+        hung = 0
         def one(si):
-            return run_bin(ws, f"{self.prefix}_{si}", list(args))
+            return run_bin(ws, f"{self.prefix}_{si}", list(args), timeout=self.shard_timeout)
         with concurrent.futures.ThreadPoolExecutor(self.n) as ex:
             for si, (rc, o, e) in enumerate(ex.map(one, range(self.n))):
                 if rc != 0:
                     # a crashing runner (abort / signal: memory error inside the code under test - the generated programs
                     # contain no unsafe) is isolated by running each of the shard's programs in its own process
                     ids = getattr(self, "_shard_ids", {}).get(si, [])
-                    if rc in (-6, -11, -7, -4, 134, 139) and ids and not args:
+                    # ... and so is a runner that does not come back: each program gets its own process and 30 s (the
+                    # programs run for milliseconds); one that still does not return "does not terminate"
+                    if rc in (-6, -11, -7, -4, 134, 139, None) and ids and not args:
                         for pid in ids:
-                            rc1, o1, e1 = run_bin(ws, f"{self.prefix}_{si}", [str(pid)], timeout=60)
+                            if hung >= 3:
+                                break  # three programs do not terminate: enough for a verdict, the rest is not run
+                            rc1, o1, e1 = run_bin(ws, f"{self.prefix}_{si}", [str(pid)], timeout=30)
+                            hung += 1 if rc1 is None else 0
                             if rc1 == 0:
-                                for line in o1.splitlines():
+                                for line in o1.split("\n"):
                                     if line.startswith("{"):
                                         res.append(json.loads(line))
+                            elif rc1 is None:
+                                res.append({"id": pid, "n": 1, "bad": 1, "outcomes": 1, "crash": True,
+                                            "first_bad": {"case": "<program does not terminate>", "konst": "no result within 30 s (the program's inputs are tiny)", "std": "terminates at once"}})
                             else:
                                 res.append({"id": pid, "n": 1, "bad": 1, "outcomes": 1, "crash": True,
                                             "first_bad": {"case": "<program crashed the process>", "konst": f"process died (status {rc1}): {(e1 or '').strip()[-200:]}", "std": "no memory error"}})
                         continue
                     mach.append(f"runner {self.prefix}_{si} failed: rc={rc} {e[-800:]}")
                     continue
-                for line in o.splitlines():
+                for line in o.split("\n"):
                     if line.startswith("{"):
                         try:
                             res.append(json.loads(line))
